@@ -7,11 +7,14 @@ from fractions import Fraction as F
 from ..core import Case, Prop
 from ..scautil import (TOL, approx_equal, arr, brackets_of, exact, fmt_scale, fmt_vals, fr, mk, parse_rd,
                        parse_scale, parse_vals, show_brackets, snap, snapshot, spec_build, spec_mr)
+import zlib
+
+from ..scautil import spec_la, spec_ma, spec_sa
 from .c08 import rand_ins
 
 Q = F(1, 4)
 # ops that go through a true float division: compared with tolerance 2^-20
-APPROX_OPS = {"inverse", "toavg", "avgrt", "tomarg"}
+APPROX_OPS = {"inverse", "toavg", "avgrt", "tomarg", "copyk"}
 
 SIG_A = "combine:operand-starts-below-receiver"      # F-C09a
 SIG_B = "avg-roundtrip:first-threshold-positive"     # F-C09b
@@ -41,32 +44,69 @@ def _mk_avg(text: str):
     return s
 
 
+def _shares(result, operand, before) -> bool:
+    """change the result in every way the API offers: the operand must not move (no shared lists)"""
+    try:
+        result.add_bracket(12345.0, 0.5)
+        if hasattr(result, "multiply_rates"):
+            result.multiply_rates(2.0)
+            result.multiply_thresholds(3.0)
+        vals = result.rates if hasattr(result, "rates") else result.amounts
+        if result.thresholds:
+            result.thresholds[0] = -1.0
+            vals[0] = 9.0
+    except Exception:
+        pass
+    return snapshot(operand) != before or result is operand
+
+
+def _real_node(kids):
+    """a genuine ParameterNodeAtInstant whose children are the scales (and plain parameters for `x`)"""
+    from openfisca_core.parameters import ParameterNode
+    data = {}
+    for i, t in enumerate(kids):
+        if t == "x":
+            data[f"child{i}"] = {"values": {"2000-01-01": {"value": 3.5}}}
+        else:
+            data[f"child{i}"] = {"brackets": [{"threshold": {"2000-01-01": {"value": float(a)}}, "rate": {"2000-01-01": {"value": float(b)}}}
+                                              for a, b in spec_build(parse_scale(t))]}
+    return ParameterNode("node", data=data)("2020-06-01")
+
+
 def impl(case: Case) -> str:
     f = case.line.split()
     op = f[1]
     flags = ""
+    alt = zlib.crc32(case.line.encode()) % 2 == 0        # second spelling / container kind on half of the lines
     try:
         if op == "seq":
-            scales = [mk("mr", parse_scale(t)) for t in f[2].split(";")]
+            texts = f[2].split(";")
+            recv = mk("mr", parse_scale(texts[0]))
+            cache = {}                      # the same operand text is the same object, used again
+            others = [recv if t == "@" else cache.setdefault(t, mk("mr", parse_scale(t))) for t in texts[1:]]
             bases = parse_vals(f[3])
-            recv, others = scales[0], scales[1:]
-            before = [snapshot(o) for o in others]
             for o in others:
+                before = None if o is recv else snapshot(o)
                 recv.add_tax_scale(o)
-            if [snapshot(o) for o in others] != before:
-                flags += " !MUT"
+                if before is not None and snapshot(o) != before:
+                    flags = " !MUT"
             return show_brackets(brackets_of(recv)) + "|" + _calc(recv, bases) + flags
         if op == "cts":
             from openfisca_core import taxscales
             init = None if f[2] == "none" else mk("mr", parse_scale(f[2]))
-            node = {}
-            if f[3] != ".":
-                for i, t in enumerate(f[3].split(";")):
-                    node[f"child{i}"] = 3.5 if t == "x" else mk("mr", parse_scale(t))
+            kids = [] if f[3] == "." else f[3].split(";")
             bases = parse_vals(f[4])
-            before = [snapshot(c) for c in node.values() if not isinstance(c, float)]
-            res = taxscales.combine_tax_scales(node, init)
-            if [snapshot(c) for c in node.values() if not isinstance(c, float)] != before:
+            if alt and "-" not in kids:
+                node = _real_node(kids)
+                objs = [node[k] for k in node if not isinstance(node[k], float)]
+            else:
+                # a child that is not a marginal-rate scale: a plain value, or a scale of another kind
+                other = [3.5, mk("la", [(F(0), F(0)), (F(40), F(1, 4))]), mk("ma", [(F(0), F(3)), (F(20), F(5))])]
+                node = {f"child{i}": (other[i % 3] if t == "x" else mk("mr", parse_scale(t))) for i, t in enumerate(kids)}
+                objs = [c for c in node.values() if not isinstance(c, float)]
+            before = [snapshot(c) for c in objs]
+            res = taxscales.combine_tax_scales(node, init) if init is not None or alt else taxscales.combine_tax_scales(node)
+            if [snapshot(c) for c in objs] != before:
                 flags += " !MUT"
             if res is None:
                 return "none" + flags
@@ -79,7 +119,20 @@ def impl(case: Case) -> str:
             if snapshot(s) != before or inv is s:
                 flags += " !MUT"
             nets = xs - s.calc(xs)
-            return show_brackets(brackets_of(inv)) + "|" + _calc_raw(inv, nets) + flags
+            out = show_brackets(brackets_of(inv)) + "|" + _calc_raw(inv, nets)
+            if _shares(inv, s, before):
+                flags += " !SHARE"
+            return out + flags
+        if op == "copyk":
+            kind, ins, bases = f[2], parse_scale(f[3]), parse_vals(f[4])
+            s = mk(kind, ins)
+            before = snapshot(s)
+            c = s.copy()
+            vals = c.calc(arr(bases))
+            out = show_brackets(brackets_of(c)) + "|" + fmt_vals(exact(v) for v in vals)
+            if type(c) is not type(s) or _shares(c, s, before):
+                flags += " !SHARE"
+            return out + flags
         if op in ("mult", "mulr", "sts"):
             k = F(f[2])
             if op == "mult":
@@ -88,30 +141,38 @@ def impl(case: Case) -> str:
                 dec, ins, bases = None, parse_scale(f[3]), parse_vals(f[4])
             s = mk("mr", ins)
             before = snapshot(s)
+            kf = int(k) if k.denominator == 1 and alt else float(k)          # integer factors as int
             if op == "mult":
-                res = s.multiply_thresholds(float(k), decimals=dec, inplace=False)
+                res = (s.multiply_thresholds(kf, dec, False, "renamed") if alt else
+                       s.multiply_thresholds(kf, decimals=dec, inplace=False))
                 t = mk("mr", ins)
-                r2 = t.multiply_thresholds(float(k), decimals=dec)
+                r2 = t.multiply_thresholds(kf, decimals=dec, inplace=True) if alt else t.multiply_thresholds(kf, decimals=dec)
             elif op == "mulr":
-                res = s.multiply_rates(float(k), inplace=False)
+                res = s.multiply_rates(kf, False, "renamed") if alt else s.multiply_rates(kf, inplace=False)
                 t = mk("mr", ins)
-                r2 = t.multiply_rates(float(k))
+                r2 = t.multiply_rates(kf, inplace=True) if alt else t.multiply_rates(kf)
             else:
-                res = s.scale_tax_scales(float(k))
+                res = s.scale_tax_scales(kf)
                 t = r2 = res
             if snapshot(s) != before or res is s:
                 flags += " !MUT"
             if r2 is not t or brackets_of(r2) != brackets_of(res):
                 flags += " !INPLACE"
             pts = bases if op == "mulr" else [k * b for b in bases]
-            return show_brackets(brackets_of(res)) + "|" + _calc(res, pts) + flags
+            out = show_brackets(brackets_of(res)) + "|" + _calc(res, pts)
+            if _shares(res, s, before):
+                flags += " !SHARE"
+            return out + flags
         if op == "toavg":
             s = mk("mr", parse_scale(f[2]))
             before = snapshot(s)
             av = s.to_average()
             if snapshot(s) != before:
                 flags += " !MUT"
-            return show_brackets(brackets_of(av)) + flags
+            out = show_brackets(brackets_of(av))
+            if _shares(av, s, before):
+                flags += " !SHARE"
+            return out + flags
         if op == "avgrt":
             s = mk("mr", parse_scale(f[2]))
             bases = parse_vals(f[3])
@@ -121,7 +182,10 @@ def impl(case: Case) -> str:
             rt = av.to_marginal()
             if snapshot(s) != before or snapshot(av) != snap_av:
                 flags += " !MUT"
-            return show_brackets(brackets_of(rt)) + "|" + _calc_raw(rt, arr(bases)) + flags
+            out = show_brackets(brackets_of(rt)) + "|" + _calc_raw(rt, arr(bases))
+            if _shares(rt, av, snap_av) or snapshot(s) != before:
+                flags += " !SHARE"
+            return out + flags
         if op == "tomarg":
             av = _mk_avg(f[2])
             before = snapshot(av)
@@ -135,13 +199,7 @@ def impl(case: Case) -> str:
             before = snapshot(s)
             c = s.copy()
             out = show_brackets(brackets_of(c)) + "|" + _calc(c, bases)
-            c.add_bracket(12345.0, 0.5)
-            c.multiply_rates(2.0)
-            c.multiply_thresholds(3.0)
-            if c.thresholds:
-                c.thresholds[0] = -1.0
-                c.rates[0] = 9.0
-            if snapshot(s) != before or c is s:
+            if type(c) is not type(s) or (c.name, c.option, c.unit) != (s.name, s.option, s.unit) or _shares(c, s, before):
                 flags += " !SHARE"
             return out + flags
     except Exception:
@@ -207,12 +265,15 @@ def oracle(case: Case, out: str):
     if "MUT" in flags:
         return ("mutates-operand", f"{op} altered the scale it was applied to / given: " + case.line[:200])
     if "SHARE" in flags:
-        return ("copy-shares-state", "changing the copy changed the original: " + case.line[:200])
+        return ("copy-shares-state", "changing the result (copy / new scale) changed the scale it came from: " + case.line[:200])
     if "INPLACE" in flags:
         return ("inplace-differs", "in-place and new-scale variants give different brackets: " + case.line[:200])
     if op == "seq":
-        parts = [spec_build(parse_scale(t)) for t in f[2].split(";")]
-        return _combine_oracle(case, body, parts[0], parts[1:], parse_vals(f[3]))
+        texts = f[2].split(";")
+        comps = [spec_build(parse_scale(texts[0]))]       # the scales whose taxes must add up
+        for t in texts[1:]:
+            comps += list(comps) if t == "@" else [spec_build(parse_scale(t))]     # `@`: the receiver added to itself
+        return _combine_oracle(case, body, comps[0], comps[1:], parse_vals(f[3]))
     if op == "cts":
         init = None if f[2] == "none" else spec_build(parse_scale(f[2]))
         kids = [] if f[3] == "." else f[3].split(";")
@@ -271,6 +332,17 @@ def oracle(case: Case, out: str):
                 return (SIG_B if brs[0][0] > 0 else "avg-roundtrip",
                         f"scale {fmt_scale(brs)}: after to_average().to_marginal() base {b} is taxed {float(v)} instead of {float(want)}")
         return None
+    if op == "copyk":
+        kind, brs, bases = f[2], spec_build(parse_scale(f[3])), parse_vals(f[4])
+        if body == "ERR":
+            return ("copy:raises", "copy raised") if brs or kind != "la" else None
+        if body.split("|")[0] != fmt_scale(brs):
+            return ("copy", f"copy of the {kind} scale {fmt_scale(brs)} has brackets {body.split('|')[0]}")
+        for b, v in zip(bases, _vals(body)):
+            want = spec_ma(brs, b) if kind == "ma" else spec_sa(brs, b, False) if kind == "sa" else spec_la(brs, b)
+            if want is not None and abs(v - want) > TOL:
+                return ("copy", f"copy of the {kind} scale {fmt_scale(brs)} gives {float(v)} at base {b}, the scale's definition gives {float(want)}")
+        return None
     if op == "copy":
         brs = spec_build(parse_scale(f[2]))
         if body == "ERR":
@@ -291,6 +363,8 @@ def nontrivial(case: Case, out: str) -> bool:
     if f[1] in ("seq", "cts"):
         return True
     src = f[2] if f[1] in ("inverse", "toavg", "avgrt", "tomarg", "copy") else f[-2]
+    if src == "@":
+        return True
     return src.count(":") >= 2
 
 
@@ -346,7 +420,8 @@ def nonneg_scale(rng, nmax=6, start0=None, maxrate=None):
 
 def combine_cases(rng):
     out = []
-    kind = rng.choice(["generic", "generic", "below", "below", "empty-recv", "shared", "empty-op", "seq", "seq", "same-first"])
+    kind = rng.choice(["generic", "generic", "below", "below", "empty-recv", "shared", "empty-op", "seq", "seq", "same-first",
+                       "reuse", "self"])
     a = nonneg_scale(rng)
     b = nonneg_scale(rng)
     if kind == "below":
@@ -374,10 +449,15 @@ def combine_cases(rng):
         parts = [a, b] + [nonneg_scale(rng, nmax=4) for _ in range(rng.randint(1, 3))]
         if rng.random() < 0.3:
             parts[0] = []
+    elif kind == "reuse":
+        parts = [a, b, b] if rng.random() < 0.6 else [a, b, nonneg_scale(rng, nmax=3), b]     # the same operand object twice
     else:
         parts = [a, b]
+    texts = [fmt_scale(p) for p in parts]
+    if kind == "self":
+        texts = rng.choice([[texts[0], "@"], texts + ["@"], [texts[0], "@", texts[1]], [texts[0], "@", "@"]])
     bases = bases30(rng, [spec_build(p) for p in parts])
-    out.append(_mk("seq", ";".join(fmt_scale(p) for p in parts), fmt_vals(bases), tags=(kind,)))
+    out.append(_mk("seq", ";".join(texts), fmt_vals(bases), tags=(kind,)))
     return out
 
 
@@ -425,6 +505,9 @@ def unary_cases(rng):
     out.append(_mk("avgrt", fmt_scale(s), fmt_vals(bases30(rng, [brs])), tags=("t0=0" if brs[0][0] == 0 else "t0>0", f"n{min(len(brs), 3)}")))
     out.append(_mk("toavg", fmt_scale(s)))
     out.append(_mk("copy", fmt_scale(s), fmt_vals(bases30(rng, [brs]))))
+    if rng.random() < 0.4:
+        kind = rng.choice(["ma", "sa", "la"])
+        out.append(_mk("copyk", kind, fmt_scale(s), fmt_vals(bases30(rng, [brs])), claimed=kind != "la" or len(brs) >= 2, tags=(kind,)))
     return out
 
 
@@ -448,7 +531,7 @@ def unclaimed_cases(rng):
 
 
 def generate(rng: random.Random, tier: str):
-    n = 7000 if tier == "quick" else 110000
+    n = 6500 if tier == "quick" else 100000
     out = [
         _mk("cts", "none", ".", "0,1", tags=("empty-node",)),
         _mk("cts", "0:1/4", ".", "0,1", tags=("empty-node",)),
@@ -541,7 +624,10 @@ PROP = Prop(
     exhaustive_note=("thorough: all 65 scales with <= 3 brackets over thresholds {0,1,3,6} x rates {1/8,1/2}: the 4225 ordered pairs for "
                      "add_tax_scale and every unary operation on each scale, bases -1..8 step 1/4"),
     extra_lean_files=["OFCore/TaxScale.lean", "OFCore/Lemmas/TaxScale.lean"],
-    rule=("lines `sca seq|cts|inverse|mult|mulr|sts|toavg|avgrt|tomarg|copy …` over marginal-rate scales of 1..6 brackets with "
+    rule=("lines `sca seq|cts|inverse|mult|mulr|sts|toavg|avgrt|tomarg|copy|copyk …` (cts on dict nodes and, on half of the lines, "
+          "on genuine ParameterNodeAtInstant objects; operands reused as the same object, the receiver added to itself; optional "
+          "arguments positional / by keyword, integer factors as int; every result is afterwards modified through the whole API to "
+          "show that it shares nothing with its operand) over marginal-rate scales of 1..6 brackets with "
           "non-negative integer thresholds <= 2^10 (insertion order, shared / duplicated thresholds), rates in 2^-4 Z: pairs and "
           "sequences of 2..5 scales for add_tax_scale with the situations generic / operand starting below the receiver / empty "
           "receiver / empty operand / shared thresholds / same first threshold; combine_tax_scales on dict nodes with non-scale "
